@@ -6,7 +6,7 @@
    `cpu` the core count, `sched` the order in which the futures complete. *)
 From Coq Require Import Permutation.
 From TL Require Import Lib.Base Lib.GenTypes Model.OrchParTypes Gen.OrchParGen Model.OrchPar Model.OrchParPool Proofs.OrchParPool
-     Proofs.OrchParDict Proofs.OrchParMain Actual.OrchParActual Proofs.OrchParRegress.
+     Model.OrchParRules Proofs.OrchParRules Proofs.OrchParDict Proofs.OrchParMain Actual.OrchParActual Proofs.OrchParRegress.
 
 Section C07.
   Variables file evidence : Type.
@@ -122,6 +122,58 @@ Theorem C07_stateful_worker_breaks_assignment_independence :
   <> par_run_pooled nat nat nat cnt_step 0 (fun f => f) (fun _ => []) (fun _ => true) ideal (Some 1) 16 [0;1] [0;1] [0;1].
 Proof. exact stateful_worker_breaks_assignment_independence. Qed.
 
+(* 4b. RULE INSTANCES: the tables perfile / collect / report of the statements above are not primitive.  Model/OrchParRules.v
+       computes both runs from a registry of STATEFUL rule objects along lint_file (two skip tests, every registered rule
+       through _safe_check_rule), _execute_rules, the finalize loops, the per-task fresh Orchestrator and the parent's
+       _collect_cross_file_evidence (only the instances whose class overrides finalize are fed, what they return is
+       discarded; Gen parent_rule_selection / base_finalize_result).  If what check() REPORTS for a file does not depend on
+       what the instance has seen before (what it STORES may: DRY, stringly-typed), the two runs ARE the table-level runs,
+       and lint_files_parallel = lint_files for every registry, every quirk vector, worker count, completion order and file
+       list.  The hypothesis is validated by the rule-level stream of the check, and it is necessary. *)
+Section C07Rules.
+  Variables file rstate : Type.
+  Variable excluded ignored : file -> bool.
+  Variable rules : list (rule file rstate).
+  Variable parent_sees : file -> bool.
+  Hypothesis rules_local : Forall (report_local file rstate) rules.
+
+  Theorem C07_rules_sequential_refines : forall files,
+    rseq_run file rstate excluded ignored rules files
+    = seq_run file file (r_perfile file rstate excluded ignored rules) (fun f => f) (r_report file rstate excluded ignored rules) files.
+  Proof. exact (rseq_refines file rstate excluded ignored rules rules_local). Qed.
+
+  Hypothesis rules_wf : forall r f vs, In r rules -> fst (r_check _ _ r (r_init _ _ r) f) = COk vs -> forallb wf_violation vs = true.
+
+  Theorem C07_rules_parallel_refines : forall q mw cpu sched files,
+    swallows q = false -> parent_restricts q = false ->
+    rpar_run file rstate excluded ignored rules parent_sees q mw cpu sched files
+    = par_run file file (r_perfile file rstate excluded ignored rules) (fun f => f) (r_report file rstate excluded ignored rules)
+              parent_sees q mw cpu sched files.
+  Proof. exact (rpar_refines file rstate excluded ignored rules parent_sees rules_local rules_wf). Qed.
+
+  Hypothesis fresh_finalize_nil : forall r g, In r rules -> r_finalize _ _ r = Some g -> g (r_init _ _ r) = [].
+
+  Theorem C07_rules_parallel_equals_sequential : forall q mw cpu sched files,
+    Permutation sched (seq 0 (List.length files)) ->
+    out_equiv (rpar_run file rstate excluded ignored rules parent_sees q mw cpu sched files)
+              (rseq_run file rstate excluded ignored rules files).
+  Proof. exact (rules_par_equals_seq file rstate excluded ignored rules parent_sees rules_local rules_wf fresh_finalize_nil). Qed.
+End C07Rules.
+
+(* the locality hypothesis of 4b is necessary: a rule that reports in check() a file whose content its instance has seen *)
+Theorem C07_nonlocal_rule_breaks_parallel :
+  rseq_run nat (list nat) (fun _ => false) (fun _ => false) [seen_rule] [7; 7] = Some [seen_v 7]
+  /\ rpar_run nat (list nat) (fun _ => false) (fun _ => false) [seen_rule] (fun _ => true) ideal (Some 1) 16 [0; 1] [7; 7] = Some [].
+Proof. exact nonlocal_rule_breaks_parallel. Qed.
+
+Theorem C07_rules_nonvacuous :
+  rseq_run nat (list nat) (Nat.eqb 2) (Nat.eqb 4) ex_rules [0;1;2;3;4;5;6]
+  = Some (map pf_v [0;1;3;5;6] ++ map cf_v [0;1;3;5;6])
+  /\ rpar_run nat (list nat) (Nat.eqb 2) (Nat.eqb 4) ex_rules (fun _ => true) ideal (Some 3) 16 [6;5;4;3;2;1;0] [0;1;2;3;4;5;6]
+     = Some (map pf_v [6;5;3;1;0] ++ map cf_v [0;1;3;5;6])
+  /\ below_threshold nat (Some 3) 16 [0;1;2;3;4;5;6] = false.
+Proof. exact rules_nonvacuous. Qed.
+
 (* 5. equal multisets: equal command output (any rule-id filter) and equal exit status *)
 Theorem C07_cli_output_equiv : forall cmd a b, out_equiv a b -> out_equiv (cli_view cmd a) (cli_view cmd b).
 Proof. exact cli_view_equiv. Qed.
@@ -169,6 +221,11 @@ Print Assumptions C07_pooled_is_fresh.
 Print Assumptions C07_assignment_independent.
 Print Assumptions C07_pooled_equals_sequential.
 Print Assumptions C07_stateful_worker_breaks_assignment_independence.
+Print Assumptions C07_rules_sequential_refines.
+Print Assumptions C07_rules_parallel_refines.
+Print Assumptions C07_rules_parallel_equals_sequential.
+Print Assumptions C07_nonlocal_rule_breaks_parallel.
+Print Assumptions C07_rules_nonvacuous.
 Print Assumptions C07_cli_output_equiv.
 Print Assumptions C07_exit_code_equal.
 Print Assumptions C07_crossfile_regression.
